@@ -4,6 +4,7 @@ CONSTANT ServerTokens <- MC_Toks
 INIT Init
 NEXT Next
 INVARIANT TokensRelayed
+INVARIANT NoEmptyAlter
 INVARIANT ServerTokensFed
 INVARIANT StopsWhenComplete
 INVARIANT RequestOnlyOnAccepted
